@@ -178,11 +178,12 @@ def c09_rmw_pairs_bus_beat_with_head_command(v, case):
 def c10_abort_in_write_data_phase(v, case):
     """LiteDRAMWishbone2Native, bus as wide as or wider than the port: port.wdata.valid is wishbone.stb & wishbone.we.  When
     the master drops cyc/stb after the write command was accepted but before the (pulsed) wdata.ready strobe, the strobe
-    finds no data and the FSM stays in WRITE waiting for a strobe that never comes again: every later access hangs.
+    finds no data (the real crossbar then stores whatever is on the bus under whatever `sel` shows) and the FSM stays in
+    WRITE waiting for a strobe that never comes again: later accesses hang or read the garbage.
     Accepts only witnesses of runs on the equal / wide path in which an abort happened and the memory side recorded a
     write strobe without data."""
     return bool(v.get("path") in ("equal", "wide") and (v.get("aborts_in_run") or 0) > 0 and (v.get("memory_side_underruns") or 0) > 0
-                and v.get("kind") in ("no-ack-within-bound", "wdata-underrun", "stored-byte-outside-model-set"))
+                and v.get("kind") in ("no-ack-within-bound", "wdata-underrun", "stored-byte-outside-model-set", "read-byte-not-in-model-set"))
 
 
 # ------------------------------------------------------------------------------------------------ C11
